@@ -168,7 +168,7 @@ pub fn run(args: &Args) -> Out {
         run_case(r["seed"].as_u64().unwrap_or(1), r["case"]["case"].as_u64().unwrap_or(0) as usize, r["thorough"].as_bool().unwrap_or(false), &mut out);
         return out;
     }
-    let n = args.n(640, 9_600);
+    let n = args.n(3_200, 19_200);
     for idx in 0..n {
         if args.mine(idx) {
             run_case(args.seed, idx, args.thorough, &mut out);
